@@ -548,6 +548,11 @@ class SymInt(SymNum):
             raise Unsupported('symbolic int used outside an exploration')
         return concretize(self)
 
+    def __hash__(self):
+        # used as a dict/set key: enumerate the feasible values (unwinding with assertion); on
+        # each resulting path the term is pinned to one value, so later == comparisons are decided
+        return hash(self.__index__())
+
     def __int__(self):
         return self.__index__()
 
@@ -836,6 +841,15 @@ def fmt_eq(f, g):
     return wrap(z3.And(tv == tw, tv >= f.base ** (w - 1)))
 
 
+def _fixed_width(f):
+    """True if the path condition entails 0 <= v < base^width (the field prints exactly `width`
+    characters), decided by the solver."""
+    v = term(f.v)
+    if not CTX.active:
+        return False
+    return _check(z3.Not(z3.And(v >= 0, v < f.base ** f.width))) == z3.unsat
+
+
 def _follows_ok(rest, alphabet):
     """The atom after a Fmt must start with a char outside the alphabet (unique parse)."""
     if not rest:
@@ -866,6 +880,11 @@ def atoms_eq(A, B):
         if isinstance(a, Fmt) and isinstance(b, Fmt):
             alpha = set(a.alphabet()) | set(b.alphabet())
             if _follows_ok(A[1:], alpha) and _follows_ok(B[1:], alpha):
+                conj.append(fmt_eq(a, b))
+                A.pop(0)
+                B.pop(0)
+                continue
+            if _fixed_width(a) and _fixed_width(b) and a.width == b.width:
                 conj.append(fmt_eq(a, b))
                 A.pop(0)
                 B.pop(0)
@@ -942,6 +961,18 @@ def sym_format(spec, args):
     if argi != len(args):
         raise TypeError('not all arguments converted during string formatting')
     return SymStr(atoms)
+
+
+def sym_join(sep, it):
+    parts = list(it)
+    if not any(isinstance(x, SymStr) for x in parts):
+        return sep.join(parts)
+    out = []
+    for i, x in enumerate(parts):
+        if i and sep:
+            out.append(sep)
+        out.extend(_atoms(x))
+    return SymStr(out)
 
 
 def sym_mod(a, b):
@@ -1108,6 +1139,15 @@ class _Rewrite(ast.NodeTransformer):
                 args=[node.left, node.right], keywords=[]), node)
         return node
 
+    def visit_Call(self, node):
+        self.generic_visit(node)
+        f = node.func
+        if (isinstance(f, ast.Attribute) and f.attr == 'join' and isinstance(f.value, ast.Constant)
+                and isinstance(f.value.value, str) and len(node.args) == 1 and not node.keywords):
+            return ast.copy_location(ast.Call(func=ast.Name(id='__sym_join__', ctx=ast.Load()),
+                                              args=[f.value, node.args[0]], keywords=[]), node)
+        return node
+
     def visit_BoolOp(self, node):
         self.generic_visit(node)
         if not self.merge_bool:
@@ -1234,7 +1274,7 @@ def shadow_builtins():
     b.update(int=sym_int, float=sym_float, bool=sym_bool, round=sym_round, range=sym_range,
              min=sym_min, max=sym_max, sorted=sym_sorted, sum=sym_sum, str=sym_str,
              divmod=sym_divmod, pow=sym_pow,
-             __sym_mod__=sym_mod, __sym_and__=_sym_and, __sym_or__=_sym_or,
+             __sym_mod__=sym_mod, __sym_join__=sym_join, __sym_and__=_sym_and, __sym_or__=_sym_or,
              __sym_not__=_sym_not, __sym_ite__=_sym_ite)
     return b
 
